@@ -168,45 +168,11 @@ func (c *Conn) Hash() int {
 func (c *Conn) AsyncRead() {
 	g := c.p.g
 
-	// If is EPOLLONESHOT, run the read job directly, because the reading event wouldn't
-	// be re-dispatched before this reading event has been handled and set again.
-	if g.isOneshot {
-		g.IOExecute(func(pbuf *[]byte) {
-			bufLen := len(*pbuf)
-			for i := 0; i < g.MaxConnReadTimesPerEventLoop; i++ {
-				rc, n, err := c.ReadAndGetConn(pbuf)
-				if n > 0 {
-					*pbuf = (*pbuf)[:n]
-					g.onDataPtr(rc, pbuf)
-					// restore the buffer for the next read.
-					*pbuf = (*pbuf)[:bufLen]
-				}
-				if errors.Is(err, syscall.EINTR) {
-					continue
-				}
-				if errors.Is(err, syscall.EAGAIN) {
-					break
-				}
-				if err != nil {
-					_ = c.closeWithError(err)
-					return
-				}
-				if n == 0 && len(*pbuf) > 0 && !c.IsUDP() {
-					// end of stream, everything has been read.
-					_ = c.closeWithError(io.EOF)
-					return
-				}
-				if n < len(*pbuf) && !c.IsUDP() {
-					break
-				}
-			}
-			c.ResetPollerEvent()
-		})
-		return
-	}
-
-	// If is not EPOLLONESHOT, the reading event may be re-dispatched for more than
-	// once, here we reduce the duplicate reading events.
+	// The reading event may be dispatched again while the job of an earlier
+	// one is still running: new data with EPOLLLT/EPOLLET, and with
+	// EPOLLONESHOT the event is armed again whenever a Write asks for the
+	// writing event. Here we reduce the duplicate reading events: only one
+	// job reads, it goes on for the events that arrived meanwhile.
 	cnt := atomic.AddInt32(&c.readEvents, 1)
 	if cnt > 2 {
 		atomic.AddInt32(&c.readEvents, -1)
@@ -250,6 +216,10 @@ func (c *Conn) AsyncRead() {
 			}
 			verifPoint("asyncRead.beforeDecr", c)
 			if atomic.AddInt32(&c.readEvents, -1) == 0 {
+				if g.isOneshot {
+					// the one-shot event has been consumed, set it again.
+					c.ResetPollerEvent()
+				}
 				return
 			}
 		}
